@@ -387,11 +387,23 @@ class SimSemaphore:
         self.acquires = 0
         self.releases = 0
         self.waits = 0
+        self.failed_tries = 0
+        self.max_value = value
 
     def acquire(self, blocking=True, timeout=None):
         s = self._s
         if s.aborting:
             raise SimAbort()
+        if not blocking:
+            # try-acquire: a scheduling point, then take it only if it is free right now
+            s.yield_point("sem-try-acquire")
+            if self.value <= 0:
+                self.failed_tries += 1
+                return False
+            self.value -= 1
+            self.acquires += 1
+            self.holder = s.current_name()
+            return True
         if self.value <= 0:
             self.waits += 1
         s.block_until(lambda: self.value > 0, f"{self.name}(held by {self.holder})", kind="sem-acquire")
@@ -403,6 +415,7 @@ class SimSemaphore:
     def release(self, n=1):
         s = self._s
         self.value += n
+        self.max_value = max(self.max_value, self.value)
         self.releases += 1
         self.holder = None
         if s.aborting:
